@@ -76,8 +76,8 @@ def remap(op, off):
 class C12(Scenario):
     pid = "C12"
     arms = {
-        "quick": [("uniform", 4), ("digit-boundary", 4), ("multi-mesh", 3), ("salt", 4), ("warm", 2), ("shared-measure", 3), ("faulty-noise", 2), ("demo", 1), ("probe", 4)],
-        "thorough": [("uniform", 4), ("digit-boundary", 4), ("multi-mesh", 3), ("salt", 4), ("warm", 2), ("shared-measure", 3), ("faulty-noise", 3), ("demo", 1), ("deep", 2), ("probe", 4)],
+        "quick": [("uniform", 4), ("digit-boundary", 4), ("multi-mesh", 3), ("salt", 4), ("warm", 2), ("shared-measure", 3), ("faulty-noise", 2), ("demo", 1), ("probe", 4), ("restart", 3)],
+        "thorough": [("uniform", 4), ("digit-boundary", 4), ("multi-mesh", 3), ("salt", 4), ("warm", 2), ("shared-measure", 3), ("faulty-noise", 3), ("demo", 1), ("deep", 2), ("probe", 4), ("restart", 3)],
     }
     runs = {"quick": 1500, "thorough": 60000}
     wall = {"quick": 75, "thorough": 1300}
@@ -327,6 +327,13 @@ class C12(Scenario):
                 first_obs = next((i for i, u in enumerate(out) if u["k"] == "obs"), len(out))
                 out = out[:first_obs] + tail + out[first_obs:]
             units = out
+        # checkpoint / restart: a perturbed node pickles everything it has built so far,
+        # crashes, is restarted as a fresh process, reloads the checkpoint and carries on
+        if arm == "restart" or (arm in ("uniform", "salt", "probe") and rng.random() < 0.15):
+            pidx = [i for i, u in enumerate(units) if u["k"] == "P"]
+            if len(pidx) > 4:
+                at = pidx[rng.randint(max(1, len(pidx) // 3), len(pidx) - 1)]
+                units.insert(at, {"k": "restart", "n": rng.randrange(1, len(nodes))})
         # second build in the same process
         if arm in ("warm", "shared-measure") or rng.random() < 0.3:
             units.append({"k": "again", "n": rng.randrange(len(nodes))})
@@ -349,6 +356,12 @@ class C12(Scenario):
                     steps.append([u["n"], u["op"]])
                     uos.append(ui)
                     tags.append(0)
+            elif k == "restart":
+                if u["n"] < nn:
+                    for rop in (["sendall", "ck"], ["crash"], ["recvall", "ck"]):
+                        steps.append([u["n"], rop])
+                        uos.append(ui)
+                        tags.append(0)
             elif k == "again":
                 if u["n"] >= nn:
                     continue
@@ -371,8 +384,9 @@ class C12(Scenario):
         nodes = plan["nodes"]
         res = {}  # obs unit -> list of (node, pass, result)
         faults = {"interrupt": {"configured": 0, "fired": 0}, "stack": {"configured": 0, "fired": 0}}
-        probes = {"noise_ops": 0, "noise_aborted_naturally": 0, "torn_tables_after_stack_fault": 0, "obs_total": 0, "obs_on_perturbed_node": 0, "again_builds": 0, "program_op_failed_somewhere": 0}
+        probes = {"noise_ops": 0, "noise_aborted_naturally": 0, "torn_tables_after_stack_fault": 0, "obs_total": 0, "obs_on_perturbed_node": 0, "again_builds": 0, "program_op_failed_somewhere": 0, "restarts": 0, "restart_incomplete": 0}
         torn = set()
+        incomplete = set()
         pfail = {}
         for ev in history:
             si, node, op, r = ev
@@ -394,6 +408,17 @@ class C12(Scenario):
                         probes["torn_tables_after_stack_fault"] += 1
                 elif "raised" in r:
                     probes["noise_aborted_naturally"] += 1
+            elif k == "restart":
+                if op[0] == "sendall":
+                    v = r.get("ok") if isinstance(r, dict) else None
+                    probes["restarts"] = probes.get("restarts", 0) + 1
+                    if not isinstance(v, dict) or v.get("skipped"):
+                        # something the program built does not pickle: the restarted process
+                        # cannot continue the same program, its observations are not judged
+                        incomplete.add(node)
+                        probes["restart_incomplete"] = probes.get("restart_incomplete", 0) + 1
+                elif op[0] == "recvall" and "ok" not in r:
+                    incomplete.add(node)
             elif k == "P":
                 if "ok" not in r:
                     pfail.setdefault(ui, set()).add(node)
@@ -412,7 +437,9 @@ class C12(Scenario):
             for n, t, r in lst:
                 if n == 0 and t == 0:
                     continue
-                pert = nodes[n]["salt"] != nodes[0]["salt"] or bool(nodes[n].get("init")) or t == 1 or any(u["k"] == "noise" and u.get("n") == n for u in units)
+                if n in incomplete:
+                    continue
+                pert = nodes[n]["salt"] != nodes[0]["salt"] or bool(nodes[n].get("init")) or t == 1 or any(u["k"] in ("noise", "restart") and u.get("n") == n for u in units)
                 if pert:
                     probes["obs_on_perturbed_node"] += 1
                     nontrivial = True
@@ -465,6 +492,8 @@ class C12(Scenario):
                     parts.add("probe:" + (op[2] if op[0] in ("obs", "call") else op[0]))
                 else:
                     parts.add("noise")
+        if any(u["k"] == "restart" and u.get("n") == n for u in plan["units"]):
+            parts.add("restart")
         if viol["detail"].get("second_build"):
             parts.add("again")
         return "+".join(sorted(parts)) or "none"
@@ -489,7 +518,7 @@ class C12(Scenario):
                 q["nodes"] = nodes[:i] + nodes[i + 1 :]
                 nu = []
                 for u in units:
-                    if u["k"] in ("noise", "again"):
+                    if u["k"] in ("noise", "again", "restart"):
                         if u["n"] == i:
                             continue
                         if u["n"] > i:
